@@ -566,6 +566,7 @@ func (fr *frame) applyContract(st *State, bc *BoundContract, args []Val, pos tok
 		var v Val
 		if bc.FreshResult[i] {
 			a := u.newObj()
+			u.MC.Opaque[a.K] = true
 			v = a
 			if _, isIface := rt.Underlying().(*types.Interface); isIface {
 				v = &IfaceV{Tag: c.Var(u.freshName("r_"+bc.FC.Name+".tag"), BV(32)), Ptr: a}
